@@ -70,7 +70,7 @@ and is neither a `Recurrent` marker nor an exception object -/
 theorem C19_switch_saved_value_is_final (P : Program) (val : Node → Option Val) (hsw : SwP P)
     (hsol : SolutionSw P val) (s : St) (log : List Obs) (h : Exec P s log) (n : Node) (v : Val)
     (hm : Obs.save n v ∈ log) : val n = some v ∧ v.isRecur = false ∧ v.isExc = false :=
-  (safe_exec hsw hsol h).2 _ hm
+  (safe_exec_sw hsw hsol h).2 _ hm
 
 /-- two saves of one node — in one run or in two — carry the same value -/
 theorem C19_switch_saves_agree (P : Program) (val : Node → Option Val) (hsw : SwP P) (hsol : SolutionSw P val)
